@@ -14,7 +14,7 @@ PROPERTY = "C16"
 LEVEL = "exploration"
 TECHNIQUE = "metamorphic: Hypothesis-seeded generated programs (and the repository's sample sources) rendered canonically and under random compositions of the listed presentation changes, applied at every applicable position; outputs and symbol values compared"
 RULE = (
-    "each generated program (C03 profile + unsized literal operands + every addressing shape) is rendered canonically and under 8 (quick) / 32 (thorough) random layouts composed from: blank / whitespace-only lines; "
+    "each generated program (C03 profile incl. `.text` with ASCII and non-ASCII table entries + unsized literal operands + every addressing shape) is rendered canonically and under 8 (quick) / 32 (thorough) random layouts composed from: blank / whitespace-only lines; "
     "indentation by spaces and tabs; trailing spaces; full-line ';' comments; end-of-line ';' comments after >=1 space; single- and multi-line '/* */' comments on their own lines; 0-3 spaces around binary "
     "operators, after unary operators, around ',' in lists and before index registers, after '#', inside brackets next to the operand, around = := *= @=; letter case of mnemonics, size suffixes, index "
     "registers (inside and outside brackets) and hexadecimal digits; moving runs of complete statements into .include files (nested up to 2).  tests/samples/*.s get the line-level subset.  Oracle: identical "
